@@ -1,7 +1,73 @@
 use encoding_rs::Encoding;
 use xhtmlchardet::detect;
 
+/// The content of the XML declaration, if the data starts with one in an
+/// ASCII-compatible encoding (optionally preceded by a UTF-8 byte order mark).
+///
+/// ```text
+/// XMLDecl ::= '<?xml' VersionInfo EncodingDecl? SDDecl? S? '?>'
+/// ```
+fn xml_declaration(data: &[u8]) -> Option<&str> {
+    let data = data.strip_prefix(b"\xEF\xBB\xBF").unwrap_or(data);
+    let data = data.strip_prefix(b"<?xml")?;
+    // `<?xml-stylesheet ...?>` is a processing instruction, not the declaration
+    if !data.first()?.is_ascii_whitespace() {
+        return None;
+    }
+    let end = data.windows(2).position(|w| w == b"?>")?;
+    std::str::from_utf8(&data[..end]).ok()
+}
+
+/// The encoding label in the content of an XML declaration: the value of the
+/// pseudo-attribute `encoding` among `name Eq quoted-value` pairs, where
+/// `Eq ::= S? '=' S?`.
+fn declared_label(declaration: &str) -> Option<&str> {
+    let mut rest = declaration;
+    loop {
+        let (name, value) = rest.split_once('=')?;
+        let value = value.trim_start();
+        let quote = value.chars().next().filter(|c| matches!(c, '"' | '\''))?;
+        let (value, tail) = value[1..].split_once(quote)?;
+        if name.trim() == "encoding" {
+            return Some(value);
+        }
+        rest = tail;
+    }
+}
+
+/// Whether the data starts the way an XML document in an ASCII-compatible
+/// encoding does: with a UTF-8 byte order mark, or with neither another byte
+/// order mark, nor a NUL among the first four bytes (UTF-16 or UCS-4 without a
+/// byte order mark), nor `<?xm` in EBCDIC.
+fn is_ascii_compatible(data: &[u8]) -> bool {
+    if data.starts_with(b"\xEF\xBB\xBF") {
+        return true;
+    }
+    let head = &data[..data.len().min(4)];
+    !head.is_empty()
+        && !head.contains(&0)
+        && !head.starts_with(b"\xFE\xFF")
+        && !head.starts_with(b"\xFF\xFE")
+        && head != b"\x4C\x6F\xA7\x94"
+}
+
 pub fn encoding(data: &[u8], hint: Option<String>) -> Option<&'static Encoding> {
+    // In an ASCII-compatible encoding only the XML declaration, which has to
+    // come first, can name the encoding. xhtmlchardet looks for the literal
+    // `encoding=` (or `charset=`) anywhere in the first 512 bytes instead: it
+    // misses an encoding declaration with white space in front of the `=`,
+    // and it takes an attribute, a comment or text further down for one. So
+    // read the label from the declaration itself; without one (and without
+    // other information) such a document is UTF-8.
+    if is_ascii_compatible(data) {
+        let declared = xml_declaration(data).and_then(declared_label);
+        let label = match (declared, &hint) {
+            (Some(label), _) => label,
+            (None, Some(hint)) => hint.as_str(),
+            (None, None) => "UTF-8",
+        };
+        return Encoding::for_label(label.as_bytes());
+    }
     let mut cursor = std::io::Cursor::new(data);
     let charsets = detect(&mut cursor, hint).ok()?;
     // no encoding detected
